@@ -109,6 +109,7 @@ fn run_fault(d: &mut Drv, steps: &[Step], at: Option<(usize, Inject)>) -> Vec<ch
                 }
             }
             Step::Partial(..) => {}
+            Step::OwedLong => d.deliver_all(),
             Step::Op(line) => {
                 d.x(line);
                 while d.suspended() {
